@@ -7,9 +7,13 @@ CONSTANTS
   RefLen3 = 3
   MiniLen = 5
   SelLen = 6
+  SimLevel = 1
+  LabelRefLen = 0
 INVARIANT InvKmers
 INVARIANT InvMask
 INVARIANT InvTable
+INVARIANT InvSimilar
+INVARIANT InvSelTab
 INVARIANT InvMini
 INVARIANT InvSelect
 CHECK_DEADLOCK FALSE
